@@ -1,7 +1,7 @@
 """R-MODE-FIELD, R-HAS-INSTR, R-EMIT-ORDER: lowering of the plain modes."""
 import re
 
-from vlib.facts import walk, pat_alternatives, peel, place_path, CheckError, uncond_before
+from vlib.facts import walk, pat_alternatives, peel, place_path, CheckError, uncond_before, conditional_ancestors
 from vlib.paths import paths, normal_paths, implied_some_iflets
 from vlib.report import RuleResult
 
@@ -176,7 +176,8 @@ def emit_order(F):
     idx = blk["stmts"].index(st)
     tail = {"k": "Block", "stmts": blk["stmts"][idx + 1:], "expr": blk.get("expr")}
     irr = implied_some_iflets(tail)
-    ps = normal_paths(paths(tail, classify, irrefutable=lambda n: id(n) in irr))
+    # a `continue` out of the instrumented-instruction branch is an exit of this iteration like falling off its end
+    ps = [(ev, st_) for ev, st_ in paths(tail, classify, irrefutable=lambda n: id(n) in irr) if st_ in ("fall", "ret", "cont")]
     seqs = sorted({ev for ev, _ in ps})
     r.count("emit_paths", len(seqs))
     allowed = {
@@ -367,4 +368,90 @@ def inject_at_protocol(F):
             r.violate("%s | protocol" % fn["path"], F.loc(fn), "inject_at does not select the requested mode at the requested instruction on every path before filing the instruction: %s (the instruction lands in whatever list was current)" % why)
     if len(impls) < 3:
         raise CheckError("expected 3 InjectAt::inject_at implementations, found %d" % len(impls))
+    return r
+
+
+
+def _div(e):
+    e = peel(e)
+    if e.get("ty") == "!":
+        return True
+    if e.get("k") == "Block":
+        if e.get("expr") is not None:
+            return _div(e["expr"])
+        if e.get("stmts"):
+            last = e["stmts"][-1]
+            return _div(last.get("e") or {})
+    return False
+
+
+def mode_setters(F):
+    """R-MODE-SETTER: (a) every implementation of set_instrument_mode_at stores exactly the mode it was given (the parameter
+    itself, not a value recomputed from it) into current_mode; (b) in InstrumentationFlag::add_instr the arms of the plain
+    modes (Before, After, Alternate) file the instruction unconditionally — whether code is 'reachable' is not the
+    library's call."""
+    r = RuleResult("R-MODE-SETTER",
+                   "set_instrument_mode_at stores the requested mode unchanged; add_instr files Before/After/Alternate code unconditionally")
+    impls = [f for f in F.fns if f["name"] == "set_instrument_mode_at" and f.get("body") is not None]
+    r.count("mode_setter_impls", len(impls))
+    for fn in impls:
+        r.analysed.append(fn["path"])
+        hid_mode = fn["params"][1]["pat"].get("hid")
+        direct = []   # assignments to ..current_mode
+        passes = []   # delegations: a call that receives the mode parameter
+        for x in walk(fn["body"]):
+            if x.get("k") == "Assign" and (place_path(x["lhs"]) or "").endswith("current_mode"):
+                direct.append(x)
+            if x.get("k") in ("Call", "MethodCall"):
+                for a_ in x.get("args", []):
+                    if peel(a_).get("res", {}).get("hid") == hid_mode:
+                        passes.append(x)
+        ok = bool(direct or passes)
+        why = "neither stores nor forwards the mode"
+        for d in direct:
+            rhs = peel(d["rhs"])
+            inner = None
+            if rhs.get("k") == "Call" and (rhs.get("fres") or {}).get("variant") == "Some" and rhs["args"]:
+                inner = peel(rhs["args"][0])
+            if not (inner is not None and inner.get("k") == "Path" and inner.get("res", {}).get("hid") == hid_mode):
+                ok, why = False, "stores a value other than the `mode` parameter (e.g. one recomputed from it)"
+            def _dispatch_only(c):
+                # `if let Location::X{..} = loc {..} else { panic }` / `match kind { Import => panic, Local(l) => .. }`
+                if c.get("k") == "If":
+                    return peel(c["cond"]).get("k") == "LetExpr" and ("else" not in c or peel(c["else"]).get("ty") == "!" or _div(c["else"]))
+                if c.get("k") == "Match":
+                    return all(_div(a2["body"]) or any(y is d for y in walk(a2["body"])) for a2 in c["arms"])
+                return False
+            if not all(_dispatch_only(c) for c in (conditional_ancestors(fn["body"], d) or [])):
+                ok, why = False, "stores the mode only under a condition"
+        r.ob(ok, {"impl": fn["path"], "stores_given_mode": ok})
+        if not ok:
+            r.violate("%s | mode" % fn["path"], F.loc(fn), "set_instrument_mode_at %s: code injected afterwards lands in a different list than requested" % why)
+    if len(impls) < 3:
+        raise CheckError("expected ≥3 set_instrument_mode_at implementations, found %d" % len(impls))
+    # (b) plain-mode arms of add_instr
+    ai = F.one_fn(name="add_instr", self_adt="InstrumentationFlag")
+    r.analysed.append(ai["path"])
+    n = 0
+    for mt in [x for x in walk(ai["body"]) if x.get("k") == "Match"]:
+        for arm in mt["arms"]:
+            ms = _mode_variants_in(arm["pat"], IM)
+            for m in ms & {"Before", "After", "Alternate"}:
+                n += 1
+                # the instruction parameter must be consumed (pushed / stored) on every normal path through the arm
+                val_hid = ai["params"][-1]["pat"].get("hid")
+                for pm in ai["params"]:
+                    if "Operator" in (pm.get("ty") or "") and not (pm.get("ty") or "").startswith("&"):
+                        val_hid = pm["pat"].get("hid")
+
+                def clf(x, val_hid=val_hid):
+                    if x.get("k") == "Path" and x.get("res", {}).get("hid") == val_hid:
+                        return "USE"
+                    return None
+                ps_ = normal_paths(paths(arm["body"], clf))
+                ok = bool(ps_) and all("USE" in ev for ev, _ in ps_)
+                r.ob(ok, {"add_instr arm": m, "files_unconditionally": ok})
+                if not ok:
+                    r.violate("%s | %s conditional" % (ai["path"], m), F.loc(ai, arm), "add_instr files %s-mode code only under a condition: an accepted injection is silently dropped for some instructions" % m)
+    r.count("plain_mode_arms", n)
     return r
